@@ -353,12 +353,48 @@ theorem goodSpan_binding {m : Str × List Str} (hg : GoodSpan m) {b : Str × Spa
     simp only at h; subst h
     simp only [nodeBinding?, posToSpan?, List.head?_cons, List.getLast?_singleton, parsePos_posText,
       Option.map_some, Option.some.injEq] at hb
-    rw [← hb]; exact Nat.le_refl _
+    rw [← hb]; simp
   · obtain ⟨s, ps⟩ := m
     simp only at h; subst h
     simp only [nodeBinding?, posToSpan?, List.head?_cons, List.getLast?_cons_cons, List.getLast?_singleton,
       parsePos_posText, Option.map_some, Option.some.injEq] at hb
-    rw [← hb]; exact hle
+    rw [← hb]; exact Nat.le_trans (Nat.min_le_left _ _) (Nat.le_max_left _ _)
+
+/-- `pos_to_span` sorts the two line numbers: whatever the captures, `start ≤ end`. -/
+theorem posToSpan_ordered {pos : List Str} {s : SpanP} (h : posToSpan? pos = some s) : s.start ≤ s.stop := by
+  unfold posToSpan? at h
+  split at h
+  · split at h
+    · simp only [Option.some.injEq] at h
+      rw [← h]; exact Nat.le_trans (Nat.min_le_left _ _) (Nat.le_max_left _ _)
+    · cases h
+  · cases h
+
+/-- The two line numbers of a span are those of two of the captures (the first and the last one). -/
+theorem posToSpan_lines {pos : List Str} {s : SpanP} (h : posToSpan? pos = some s) :
+    ∃ p ∈ pos, ∃ q ∈ pos, ∃ n1 x n2 y, parsePos? p = some (n1, x) ∧ parsePos? q = some (n2, y) ∧
+      s.start = min n1 n2 ∧ s.stop = max n1 n2 := by
+  unfold posToSpan? at h
+  split at h
+  · rename_i a z ha hz
+    split at h
+    · rename_i n1 x n2 y hpa hpz
+      simp only [Option.some.injEq] at h
+      refine ⟨a, List.mem_of_mem_head? (by simp [ha]), z, List.mem_of_getLast? hz, n1, x, n2, y, hpa, hpz, ?_, ?_⟩
+      · rw [← h]
+      · rw [← h]
+    · cases h
+  · cases h
+
+/-- The binding of **any** `node` match (any text, any captures) has `start ≤ end`. -/
+theorem nodeBinding_ordered {m : Str × List Str} {b : Str × SpanP} (hb : nodeBinding? m = some b) :
+    b.2.start ≤ b.2.stop := by
+  unfold nodeBinding? at hb
+  split at hb
+  all_goals
+    simp only [Option.map_eq_some_iff] at hb
+    obtain ⟨s, hp, hs⟩ := hb
+    rw [← hs]; exact posToSpan_ordered hp
 
 theorem hashNoNewline_hashFn (t : Val) : HashNoNewline (hashFn t) := by
   intro r hm
@@ -373,7 +409,7 @@ theorem hashNoNewline_hashFn (t : Val) : HashNoNewline (hashFn t) := by
 
 /-- `pos_to_span` on the two captures of `whole_span`: the first one has an empty path. -/
 theorem posToSpan_whole (n n' : Nat) (a' : List Nat) :
-    posToSpan? [dec n ++ [':'], posText n' a'] = some ⟨n, n', []⟩ := by
+    posToSpan? [dec n ++ [':'], posText n' a'] = some ⟨min n n', max n n', []⟩ := by
   have h1 : parsePos? (dec n ++ [':']) = some (n, []) := by
     simp [parsePos?, splitColon_append _ _ (colon_not_mem_dec n), splitColon, parseNat_dec]
   simp [posToSpan?, h1, parsePos_posText]
